@@ -255,6 +255,30 @@ def check_value_forwarding(ctx: Ctx, rule: str, caller: Func, val, callee: Func,
         )
 
 
+REF_READ_CONFIG = """
+def read_config(path):
+    if path is None:
+        path = find_pyproject_toml_config()
+    if path is None:
+        return {}
+    try:
+        import tomllib as toml
+    except ImportError:
+        try:
+            import toml
+        except ImportError:
+            typer.echo("Please install 'tomllib' or 'toml' to read configuration files")
+            return {}
+    try:
+        config = toml.loads(Path(path).read_text())
+    except Exception:
+        typer.echo(f"Could not read configuration file {path}")
+        return {}
+    else:
+        return config.get("tool", {}).get("gotranx", {})
+"""
+
+
 def check_validate_scheme(ctx: Ctx, rule: str):
     """validate_scheme returns the requested schemes one for one, in the order given (the order of the scheme
     functions in the written file is the order of the request)."""
@@ -437,19 +461,18 @@ def run(ctx: Ctx):
     # ---- R18.c configuration keys ----------------------------------------------------------------------
     ctx.rule("R18.c", "configuration: an explicit --config path is honoured; every documented key is read with the command-line value as default and assigned to the forwarded variable", floor=12)
     rc = sm.func("cli/utils.py", "read_config")
-    p = rc.params[0]
-    bad = []
-    for n in walk_no_nested(rc.node):
-        if isinstance(n, ast.Assign) and any(isinstance(t, ast.Name) and t.id == p for t in n.targets):
-            chain = common.cond_chain(rc.node, n) or []
-            if not any(c.replace(" ", "") == f"{p}isNone" and pol for c, pol in chain):
-                bad.append(norm(n))
-    ctx.check(not bad, "R18.c", rc.key("explicit-path-wins"), "the path argument is replaced only when it is None", f"read_config overwrites an explicitly given path ({bad}): --config is ignored when a pyproject.toml can be discovered", rc.where())
-    rets = [norm(n.value) for n in ast.walk(rc.node) if isinstance(n, ast.Return) and n.value is not None]
-    ctx.check(any(r.replace('"', "'") == "config.get('tool', {}).get('gotranx', {})" for r in rets), "R18.c", rc.key("table"), "returns [tool.gotranx]", f"read_config does not return config['tool']['gotranx'] (returns: {rets})", rc.where())
-    reads = [c for c in find_calls(rc.node, "read_text")]
-    okr = bool(reads) and p in {x.id for x in ast.walk(reads[0]) if isinstance(x, ast.Name)}
-    ctx.check(okr, "R18.c", rc.key("reads-path"), "reads the file at `path`", "read_config does not read the file named by its path argument", rc.where())
+    vd = util.same_as_reference(
+        ctx,
+        "R18.c",
+        "cli/utils.py",
+        "read_config",
+        REF_READ_CONFIG,
+        "table",
+        "an explicit path wins (the discovered pyproject.toml is used only when path is None); the file at that path is read; [tool.gotranx] is returned, {} when there is none",
+        "read_config no longer reads the file named by an explicit --config path (falling back to the discovered pyproject.toml only when none is given) and returns its [tool.gotranx] table",
+    )
+    for k_ in ("explicit-path-wins", "reads-path"):
+        (ctx.ok if vd == "ok" else (lambda *a, **kw: None))("R18.c", rc.key(k_), "see ::table (the whole function equals the vetted value)", rc.where())
 
     doc_keys = documented_keys(ctx)
     expected = {
